@@ -25,6 +25,8 @@ import (
 func init() { streams["mig"] = &stream{gen: genMig, exec: execMig} }
 
 var (
+	errInjFirst = errors.New("verif: source FirstIndex failed")
+	errInjLast  = errors.New("verif: source LastIndex failed")
 	errInjGet   = errors.New("verif: source GetLog failed")
 	errInjStore = errors.New("verif: destination StoreLogs failed")
 	errInjSGet  = errors.New("verif: source stable get failed")
@@ -80,6 +82,32 @@ type cancelSrc struct {
 	cancel      func()
 	failIdx     *uint64
 	gets        int
+	failFirst   bool // FirstIndex returns an injected error
+	failLast    bool // LastIndex returns an injected error
+}
+
+// Errors of the underlying store (e.g. ErrClosed of a WAL that was closed
+// before the copy) are classified the same way as injected ones.
+func (s *cancelSrc) FirstIndex() (uint64, error) {
+	if s.failFirst {
+		return 0, errInjFirst
+	}
+	v, err := s.LogStore.FirstIndex()
+	if err != nil {
+		return 0, fmt.Errorf("%w: %v", errInjFirst, err)
+	}
+	return v, nil
+}
+
+func (s *cancelSrc) LastIndex() (uint64, error) {
+	if s.failLast {
+		return 0, errInjLast
+	}
+	v, err := s.LogStore.LastIndex()
+	if err != nil {
+		return 0, fmt.Errorf("%w: %v", errInjLast, err)
+	}
+	return v, nil
 }
 
 func (s *cancelSrc) GetLog(idx uint64, l *raft.Log) error {
@@ -180,7 +208,7 @@ func execMig(c *ctx, line string) (obs string) {
 var migSeq int
 
 func execCopyLogs(c *ctx, line string, f []string) string {
-	if len(f) < 8 || (len(f)-8)%7 != 0 {
+	if len(f) < 9 || (len(f)-9)%7 != 0 {
 		return "badinput"
 	}
 	srcKind, dstKind := f[0], f[1]
@@ -189,9 +217,13 @@ func execCopyLogs(c *ctx, line string, f []string) string {
 	cancelK, hasCancel := optInt(f[4])
 	gf, hasGF := optInt(f[5])
 	sf, hasSF := optInt(f[6])
-	first := parseU(f[7])
+	idxFail := f[7] // - | f | l | c
+	if idxFail != "-" && idxFail != "f" && idxFail != "l" && idxFail != "c" {
+		return "badinput"
+	}
+	first := parseU(f[8])
 	var ents []*raft.Log
-	for i := 8; i < len(f); i += 7 {
+	for i := 9; i < len(f); i += 7 {
 		e := &raft.Log{Index: parseU(f[i]), Term: parseU(f[i+1]), Type: raft.LogType(parseU(f[i+2])),
 			Data: parseHex(f[i+3]), Extensions: parseHex(f[i+4])}
 		t := time.Unix(parseZ(f[i+5]), parseZ(f[i+6]))
@@ -245,10 +277,33 @@ func execCopyLogs(c *ctx, line string, f []string) string {
 	}
 	c.stat("pair_" + srcKind + dstKind)
 	c.stat(fmt.Sprintf("len_%s", bucket(len(ents))))
+	// what the source holds, read before it is possibly closed
+	sFirst, _ := srcS.FirstIndex()
+	sLast, _ := srcS.LastIndex()
 
 	ctxx, cancel := context.WithCancel(context.Background())
 	defer cancel()
 	src := &cancelSrc{LogStore: srcS, cancel: cancel}
+	srcClosed := false
+	switch idxFail {
+	case "f":
+		src.failFirst = true
+	case "l":
+		src.failLast = true
+	case "c":
+		// the natural way to make FirstIndex fail: the source store was closed
+		// before the copy (WAL: ErrClosed, raft-boltdb: database not open);
+		// InmemStore cannot be closed, so the fault is injected there
+		if srcKind == "i" {
+			src.failFirst = true
+		} else {
+			closeSrc()
+			srcClosed = true
+		}
+	}
+	if idxFail != "-" {
+		c.stat("idxfail_" + idxFail + "_" + srcKind)
+	}
 	if hasCancel {
 		if cancelK == 0 {
 			cancel()
@@ -290,6 +345,10 @@ func execCopyLogs(c *ctx, line string, f []string) string {
 		if err != ctxx.Err() {
 			c.witness("C19", "cancel-wrong-error", "cancellation did not return the context's own error", line)
 		}
+	case errors.Is(err, errInjFirst):
+		res = "errfirst"
+	case errors.Is(err, errInjLast):
+		res = "errlast"
 	case errors.Is(err, errInjGet):
 		res = "errget"
 	case errors.Is(err, errInjStore):
@@ -307,8 +366,6 @@ func execCopyLogs(c *ctx, line string, f []string) string {
 		}
 	}
 	// ---- oracles, independent of the model --------------------------------
-	sFirst, _ := srcS.FirstIndex()
-	sLast, _ := srcS.LastIndex()
 	dFirst, e1 := dstS.FirstIndex()
 	dLast, e2 := dstS.LastIndex()
 	if e1 != nil || e2 != nil {
@@ -319,11 +376,20 @@ func execCopyLogs(c *ctx, line string, f []string) string {
 			c.witness("C19", sh, "CopyLogs handed the destination an unacceptable batch: "+sh, line)
 		}
 	}
-	noFault := !hasCancel && !hasGF && !hasSF
+	noFault := !hasCancel && !hasGF && !hasSF && idxFail == "-"
+	if idxFail != "-" {
+		want := "errfirst"
+		if idxFail == "l" {
+			want = "errlast"
+		}
+		if res != want || src.gets != 0 || dst.calls != 0 {
+			c.witness("C19", "index-error-ignored", fmt.Sprintf("source %s index lookup failed but CopyLogs returned %s after %d GetLog / %d StoreLogs calls", want[3:], res, src.gets, dst.calls), line)
+		}
+	}
 	if noFault && err != nil {
 		c.witness("C19", "copy-failed", fmt.Sprintf("CopyLogs failed without cancellation or fault (%d source entries): %v", len(ents), err), line)
 	}
-	if hasCancel && !hasGF && !hasSF && int(cancelK) < len(ents) && res != "canceled" {
+	if hasCancel && !hasGF && !hasSF && idxFail == "-" && int(cancelK) < len(ents) && res != "canceled" {
 		c.witness("C19", "cancel-ignored", "context cancelled before the loop finished but CopyLogs returned "+res, line)
 	}
 	var dents []string
@@ -341,7 +407,9 @@ func execCopyLogs(c *ctx, line string, f []string) string {
 			}
 			nd++
 			dents = append(dents, migEntryFields(&dl))
-			if err := srcS.GetLog(idx, &sl); err != nil || !sameEntry(&dl, &sl) {
+			if srcClosed { // nothing may have been copied from a closed source
+				prefixOK = false
+			} else if err := srcS.GetLog(idx, &sl); err != nil || !sameEntry(&dl, &sl) {
 				prefixOK = false
 			}
 			if idx == math.MaxUint64 {
@@ -600,6 +668,14 @@ func genMig(c *ctx, emit func(string)) {
 	nLogs := c.n * 4 / 5
 	for i := 0; i < nLogs; i++ {
 		src, dst := kinds[i%3], kinds[(i/3)%3]
+		// the first 27 cases: every pairing x {FirstIndex fails, source closed,
+		// LastIndex fails}; afterwards about one case in nine
+		idxS := "-"
+		if i < 27 {
+			idxS = []string{"f", "c", "l"}[i/9]
+		} else if r.Intn(9) == 0 {
+			idxS = []string{"f", "c", "l"}[r.Intn(3)]
+		}
 		var n int
 		switch r.Intn(10) {
 		case 0:
@@ -697,7 +773,10 @@ func genMig(c *ctx, emit func(string)) {
 			prog = "0"
 		}
 		var sb strings.Builder
-		fmt.Fprintf(&sb, "mig %s %s %s %s %s %s %s %x", src, dst, prog, zx(bb), cancelS, gfS, sfS, first)
+		if i < 27 {
+			prog = "1"
+		}
+		fmt.Fprintf(&sb, "mig %s %s %s %s %s %s %s %s %x", src, dst, prog, zx(bb), cancelS, gfS, sfS, idxS, first)
 		for j := 0; j < n; j++ {
 			d := make([]byte, sizes[j])
 			r.Read(d)
